@@ -50,6 +50,35 @@ Definition run_msg (a : sx) : sx :=
   with_root a (fun o cells k c imms =>
     sx_res msg_sx (decode_message_gen o (cached_hash_of imms k) c)).
 
+(* c16.conc: (dag root kind) -> what EVERY one of the concurrent calls must answer:
+   kind 0, a message: (Hash(false) Hash(true)); kind 1, a transaction: (Hash() SourceBoc()) *)
+Definition run_conc (a : sx) : sx :=
+  match a with
+  | SL [SL dag; SN root; SN kind] =>
+      with_root (SL [SL dag; SN root]) (fun o cells k c imms =>
+        match kind with
+        | N0 =>
+            match decode_message_gen o (cached_hash_of imms k) c with
+            | Ok m => SL [SBytes (m_hash m); sx_res SBytes (msg_hash sha256 true m)]
+            | Err _ => SA "err"
+            | Panic _ => SA "panic"
+            end
+        | _ =>
+            match decode_tx_gen o (cached_hash_of imms k) (hash_cell sha256) c with
+            | Ok t =>
+                let hs := map (fun ri => do c <- ri; cell_hash c) imms in
+                SL [SBytes (tx_hash t);
+                    match serialize cells hs [k] false false false with
+                    | Ok out => SBytes out
+                    | _ => SA "err"
+                    end]
+            | Err _ => SA "err"
+            | Panic _ => SA "panic"
+            end
+        end)
+  | _ => sx_err "shape"
+  end.
+
 (* c16.lib: (dag root target) -> as c16.msg, decoded by a Decoder whose library
    resolver answers every hash with the cell at index [target] *)
 Definition run_lib (a : sx) : sx :=
@@ -221,6 +250,7 @@ Definition run (name : string) (a : sx) : sx :=
   if String.eqb name "c16.msg" then run_msg a
   else if String.eqb name "c16.tx" then run_tx a
   else if String.eqb name "c16.lib" then run_lib a
+  else if String.eqb name "c16.conc" then run_conc a
   else if String.eqb name "c16.htx" then run_htx a
   else if String.eqb name "c16.hmsg" then run_hmsg a
   else sx_err "unknown case kind".
